@@ -700,3 +700,6 @@ PROPS["C10"]["proofs"] = PROPS["C10"]["proofs"] + ["Bmc.Proofs.EndToEnd.HistoryC
 PROPS["C10"]["claim"] += (" HISTORY FORM about the translated code (Proofs/EndToEnd/HistoryC10.lean): generated_history_is_the_contract — the datagrams SendCommand AS TRANSLATED hands to the transport over ANY history of "
                           "commands are exactly `contract`: per command as many as the documented behaviour says (one per attempt until the first final answer / lost reply / end of context), each the complete packet for that "
                           "same command with the next sequence number and IV draw, the next command starting where the counter stands; contract_count_busy_then_final — n temporary answers then a final one: n+1 datagrams.")
+PROPS["C03"]["proofs"] = PROPS["C03"]["proofs"] + ["Bmc.Proofs.EndToEnd.WholeC03"]
+PROPS["C03"]["claim"] += (" WHOLE (Proofs/EndToEnd/WholeC03.lean): generated_session_then_history_opens — the session newV2Session AS TRANSLATED returns against the specification's BMC, then ANY history on SendCommand AS TRANSLATED: "
+                          "every datagram sent opens AT THAT BMC under the K1 / K2 it derived for itself (AuthCode verifies, flags set, its session ID, payload decrypts to the caller's command).")
